@@ -1,7 +1,8 @@
 // Stream c02: well-formedness is closed under generation and mesh operations.
-//   c02.gen.<prim> params        exact index list + vertex count of a primitive constructor vs the Lean index generator
-//   c02.op.<op> params meshes    shape (topology, indices, materials, attribute names+lengths) of an operation result vs the model
-//   c02.holds.wf <mesh>          the theorem predicate WF on EVERY mesh the implementation returned
+//
+//	c02.gen.<prim> params        exact index list + vertex count of a primitive constructor vs the Lean index generator
+//	c02.op.<op> params meshes    shape (topology, indices, materials, attribute names+lengths) of an operation result vs the model
+//	c02.holds.wf <mesh>          the theorem predicate WF on EVERY mesh the implementation returned
 package main
 
 import (
@@ -74,7 +75,9 @@ func (c *Ctx) primitiveSweep(maxP int) {
 		return primitives.Quad{Width: 2, Depth: 3, UVs: &primitives.StripUVs{Start: vector2.New(0., 0.5), End: vector2.New(1., 0.5), Width: 1}}.ToMesh()
 	})
 	c.gen("cube", "", func() modeling.Mesh { return primitives.Cube{Height: 1, Width: 2, Depth: 3}.Welded() })
-	c.gen("cube", "", func() modeling.Mesh { return primitives.Cube{Height: 1, Width: 2, Depth: 3, UVs: primitives.DefaultCubeUVs()}.Welded() })
+	c.gen("cube", "", func() modeling.Mesh {
+		return primitives.Cube{Height: 1, Width: 2, Depth: 3, UVs: primitives.DefaultCubeUVs()}.Welded()
+	})
 	c.gen("cube", "", primitives.UnitCube)
 	c.gen("cube_unwelded", "", func() modeling.Mesh { return primitives.Cube{Height: 1, Width: 2, Depth: 3}.UnweldedQuads() })
 	c.gen("cube_unwelded", "", func() modeling.Mesh {
@@ -206,14 +209,17 @@ func (c *Ctx) otherGenerators(k int) {
 func (c *Ctx) opSequences(n int) {
 	all := append(append([]string{}, layoutOps...), transformOps...)
 	for s := 0; s < n; s++ {
+		c.guardSeq("c02.holds.wf", func() { c.seq02(all) })
+	}
+}
+
+func (c *Ctx) seq02(all []string) {
+	{
 		m := c.startMesh()
 		c.wf("start", m)
 		steps := 1 + c.Rng.Intn(6)
 		for k := 0; k < steps; k++ {
-			name := all[c.Rng.Intn(len(all))]
-			if name == "laplacian" && (m.Topology() == modeling.LineTopology || m.Topology() == modeling.LineLoopTopology) {
-				name = "center"
-			}
+			name := c.opsFor(m, all)
 			r := c.applyOp(name, m)
 			c.Emit("c02.op."+r.name, r.args, r.answer(shapeStr))
 			if r.status != "" {
